@@ -447,69 +447,72 @@ def nbr_parent(keyinfo):
     return None, None
 
 
-def forall_loop(A, fact, must_bb=None):
-    """The key of `fact` was bound by Iterator::next in block sym[2] of the function the fact lies in.
-    Check the ∀-neighbour idiom: that block heads a natural loop whose only regular exit is the
-    exhausted-iterator edge, and (if must_bb is given) every path from the element edge back to the
-    header passes through must_bb.  Returns (ok, reason)."""
-    sym = fact["key"][0]
-    if not (isinstance(sym, tuple) and len(sym) >= 3 and sym[0] == "b"):
-        return False, "key is not bound by an iterator"
-    if sym[1] != fact.get("fid"):
-        return False, "key bound in another function activation"
-    body = A.facts.body(fact["fn"])
-    head = sym[2]
+def loop_of_key(A, fact):
+    """(body, fid, header block, block of the fact inside the activation that bound its job key) or an error string"""
+    from rules_protocol import key_binding
+    kb = key_binding(fact)
+    if kb is None:
+        return "key is not bound by an iterator"
+    run = fact.get("_run")
+    if run is None:
+        return "no run information"
+    pos = run.pos_in(fact, kb[0])
+    if pos is None:
+        return "key bound in another function activation"
+    body = A.facts.body(pos[0])
+    return (body, kb[0], kb[1], pos[1])
+
+
+def forall_loop(A, fact, must=False):
+    """The key of `fact` was bound by Iterator::next in some activation.  Check the for-all-neighbours idiom there: the
+    binding block heads a natural loop whose only regular exit is the exhausted-iterator edge, and (if must) every path
+    from the element edge back to the header passes through the fact (or the call that leads to it).  -> (ok, reason)"""
+    lk = loop_of_key(A, fact)
+    if isinstance(lk, str):
+        return False, lk
+    body, fid, head, fbb = lk
     loop = body.natural_loop(head)
     if len(loop) <= 1:
         return False, "binding block bb%d is not a loop header" % head
-    errs = error_exit_blocks(A, body)
-    # the block after the next() call switches on None/Some
+    errs = error_exit_blocks(A, body) | residual_blocks(body)
     t = body.term(head)
     if t["k"] != "call" or t["t"] < 0:
         return False, "loop header is not an iterator step"
     sw = t["t"]
-    exits = []
+    rets = set(returns_of(body))
     for b in loop:
         for s_ in body.succs(b):
-            if s_ not in loop:
-                exits.append((b, s_))
-    bad_exits = []
-    rets = set(returns_of(body))
-    for (b, s_) in exits:
-        if b == sw:
-            continue
-        # leaving into a pure error exit is not an early exit of the iteration scheme
-        if s_ in errs or not (rets & body.reachable(s_, errs)):
-            continue
-        bad_exits.append((b, s_))
-    if bad_exits:
-        return False, "loop over the neighbours can be left early (bb%d -> bb%d)" % bad_exits[0]
-    if must_bb is not None:
-        somes = [s_ for s_ in body.succs(sw) if s_ in loop]
-        for s0 in somes:
-            r = body.reachable(s0, {must_bb} | (errs - {s0}))
-            if head in r and s0 != must_bb:
-                return False, "an iteration can complete without passing bb%d" % must_bb
+            if s_ in loop or b == sw or body.term(s_)["k"] == "unreachable":
+                continue
+            if s_ in errs or not (rets & body.reachable(s_, errs)):
+                continue     # leaving into a pure error exit is not an early exit of the iteration scheme
+            return False, "loop over the neighbours can be left early (bb%d -> bb%d)" % (b, s_)
+    if must:
+        for s0 in [s_ for s_ in body.succs(sw) if s_ in loop]:
+            if s0 == fbb:
+                continue
+            r = body.reachable(s0, {fbb} | (errs - {s0}))
+            if head in r:
+                return False, "an iteration can complete without passing bb%d" % fbb
     return True, ""
 
 
-def forall_loop_taken(A, run, fact, must_bb):
-    """like forall_loop, but the must-pass part only follows CFG edges that the abstract run took
+def forall_loop_taken(A, run, fact, must_bb=None):
+    """like forall_loop(must), but the must-pass part only follows CFG edges that the abstract run took
     (so that conditions decided by the trace partition do not count as escape routes)"""
     ok, why = forall_loop(A, fact)
     if not ok:
         return ok, why
-    body = A.facts.body(fact["fn"])
-    head = fact["key"][0][2]
+    body, fid, head, fbb = loop_of_key(A, fact)
     sw = body.term(head)["t"]
     loop = body.natural_loop(head)
-    errs = error_exit_blocks(A, body)
+    errs = error_exit_blocks(A, body) | residual_blocks(body)
     for s0 in [s_ for s_ in body.succs(sw) if s_ in loop]:
-        if s0 == must_bb:
+        if s0 == fbb:
             continue
-        r = run.taken_reachable(fact["fid"], s0, {must_bb} | errs)
+        r = run.taken_reachable(fid, s0, {fbb} | errs)
         if head in r:
-            return False, "an iteration can complete without passing bb%d" % must_bb
+            return False, "an iteration can complete without passing bb%d" % fbb
     return True, ""
 
 
@@ -565,17 +568,20 @@ def rule_failure_propagation(A, R, rule1, rule2):
                 for v in em:
                     if set(v["kinds"]) != {K["upfail"]}:
                         continue
-                    ok, why = forall_loop(A, v, must_bb=v["bb"])
+                    ok, why = forall_loop(A, v, must=True)
                     if ok:
                         # the loop itself must be reached on every path from the write to the end of the handler
-                        body = A.facts.body(v["fn"])
-                        if v["fn"] == w["fn"] and v.get("fid") == w.get("fid"):
-                            head = v["key"][0][2]
-                            errs = error_exit_blocks(A, body)
-                            sigsym = w["key"][0]
-                            stop = {head} | errs
-                            r = run.taken_reachable(w["fid"], w["bb"], stop - {w["bb"]})
-                            outer = sigsym[2] if (isinstance(sigsym, tuple) and sigsym[0] == "b") else None
+                        com = run.common(w, v)
+                        lk = loop_of_key(A, v)
+                        if com is not None and not isinstance(lk, str) and com[0] == lk[1]:
+                            fidc, fnc, bw, bv = com
+                            body = A.facts.body(fnc)
+                            head = lk[2]
+                            errs = error_exit_blocks(A, body) | residual_blocks(body)
+                            from rules_protocol import key_binding
+                            kbw = key_binding(w)
+                            outer = kbw[1] if (kbw is not None and kbw[0] == fidc) else None
+                            r = run.taken_reachable(fidc, bw, ({head} | errs) - {bw})
                             if (outer is not None and outer in r) or ("return" in r) or (set(returns_of(body)) & r):
                                 ok, why = False, "the handler can end after the state write without visiting the downstreams"
                         break
@@ -623,6 +629,7 @@ def check_C07(A, R, tier):
                          detail="an upstream-failed state is written outside the upstream-failure handler", site=A.site(w))
                     # R7.5: no re-classification after the job's completion was announced
                     R.ob("R7.5", tkey(A, t, f, to) + " | not after the job was announced finished", f not in C["Finished"],
+                         skey="upstream-failure handler | own job | %s -> %s" % (describe_state(A, f), describe_state(A, to)),
                          detail="a job that had already finished (its downstreams were released) is re-classified as upstream-failed; "
                                 "a downstream that has meanwhile been started receives the upstream-failure signal, which its handler "
                                 "rejects with an internal error", site=A.site(w))
@@ -653,7 +660,7 @@ def check_C07(A, R, tier):
     for s in sorted(C["Finished"]):
         run = H[(K["consider"], s)]
         eff = [e for e in effects(A, run) if e[0] not in ("opaque_call",)]
-        eff = [e for e in eff if not (e[0] == "push_signal")]
+        eff = [e for e in eff if not (e[0] == "push_signal") and not (e[0] == "extend" and e[1]["target"] == ("self", A.L.signals_field))]
         pushes = [v for v in run.by_kind("push_signal") if v["container"] != "queue"]
         R.ob("R7.6", "consider handler | %s | no effect on a finished job" % A.sname(s), not eff and not pushes,
              detail="; ".join("%s at %s" % (e[0], A.site(e[1])) for e in eff[:3]))
@@ -663,6 +670,19 @@ def check_C07(A, R, tier):
                      "from never-offered states, and are final; the signal is sent only to direct downstreams of a job just marked "
                      "failed.  Not decided: that jobs without failed ancestors behave exactly as in the failure-free evaluation.")
     R.assume("the twin-run clause (\"executed or skipped exactly as without failures\") is not decided statically")
+
+
+def describe_state(A, s):
+    """name-free description of a job state: the kind by its capabilities and the state by the classes it belongs to"""
+    C = A.classes()
+    cleanup_kinds = set(A.kind_of(x) for x in C["CleanupOffered"])
+    skippable = set(A.kind_of(x) for x in (C["Finished"] - C["FailedLike"]) if reachable_without_running(A, x) and x in A.reach())
+    k = A.kind_of(s)
+    kind = "cleanup-kind" if k in cleanup_kinds else ("skippable-kind" if k in skippable else "always-run-kind")
+    cls = [n for n in ("Init", "Ready", "Running", "Finished", "Failed", "UpstreamFailed", "Aborted", "CleanupOffered") if s in C[n]]
+    if s in C["Finished"] and s not in C["FailedLike"]:
+        cls.append("never-started" if reachable_without_running(A, s) else "after-running")
+    return "%s{%s}" % (kind, ",".join(cls))
 
 
 def connected_fn(A, w, v):
@@ -768,7 +788,14 @@ def loop_conjunction(A, fn_name, is_target_write):
     I = Interp(A.facts, A.uni, A.layout, Config(label="LC"))
     fr, out, col = I.analyze(body)
     ins = col["ins"]
-    ws = [v for k, v in I.rec.facts.items() if k[0] == "write_state" and v["fid"] == fr.fid and is_target_write(v)]
+    ws = []
+    for k, v in I.rec.facts.items():
+        if k[0] == "write_state" and is_target_write(v):
+            # position of the write inside the analysed function (the call site if it happens in a callee)
+            if v["fid"] == fr.fid:
+                ws.append(dict(v, bb=v["bb"]))
+            elif v["stack"] and v["stack"][0][0] == body.name:
+                ws.append(dict(v, bb=v["stack"][0][1]))
     if not ws:
         return None
     w = ws[0]
@@ -864,7 +891,8 @@ def check_C13(A, R, tier):
     for s_ in sorted(C["Finished"]):
         for w in H[(K["done"], s_)].by_kind("write_state"):
             if set(w["to"]) & CO:
-                offer_fn = w["fn"]
+                lk = loop_of_key(A, w)
+                offer_fn = w["fn"] if isinstance(lk, str) else lk[0].name
     if offer_fn is None:
         raise Imprecision("anchor missing: no write into the cleanup offer in the done handler")
     res = loop_conjunction(A, offer_fn, lambda w: bool(set(w["to"]) & CO))
@@ -963,14 +991,17 @@ def not_forgotten(A, R, rule):
         v = has_connected(A, run, w, lambda v: K["done"] in v["kinds"] and set(v["kinds"]) == {K["done"]})
         ok = v is not None
         why = "no 'done' signal for the job follows the write"
-        if ok and v["fn"] == w["fn"] and v.get("fid") == w.get("fid"):
+        com = run.common(w, v) if ok else None
+        if ok and com is not None:
             # must-pass: from the write, the end of the handler is not reachable around the emission (taken edges only)
-            body = A.facts.body(w["fn"])
-            errs = error_exit_blocks(A, body)
-            sym = w["key"][0]
-            outer = sym[2] if (isinstance(sym, tuple) and len(sym) > 2 and sym[0] == "b" and sym[1] == w["fid"]) else None
-            r = run.taken_reachable(w["fid"], w["bb"], ({v["bb"]} | errs) - {w["bb"]})
-            if w["bb"] != v["bb"] and ((outer is not None and outer in r) or "return" in r):
+            fidc, fnc, bw, bv = com
+            body = A.facts.body(fnc)
+            errs = error_exit_blocks(A, body) | residual_blocks(body)
+            from rules_protocol import key_binding
+            kb = key_binding(w)
+            outer = kb[1] if (kb is not None and kb[0] == fidc) else None
+            r = run.taken_reachable(fidc, bw, ({bv} | errs) - {bw})
+            if bw != bv and ((outer is not None and outer in r) or "return" in r):
                 ok, why = False, "the handler can end after the write without announcing the job"
         if not ok and removed_before(A, run, w):
             ok = True   # the job was taken out of the graph: it has no neighbours an announcement could reach
@@ -1022,7 +1053,7 @@ def check_C10(A, R, tier):
                 if fs[A.L.sig_kind_field][0] == "fin":
                     got |= set(fs[A.L.sig_kind_field][2])
                 kk = fs[A.L.sig_node_field]
-                if not (kk[0] == "key" and any((r == ("via", "alljobs")) or r == "alljobs" for r in kk[2])):
+                if not (kk[0] == "key" and is_role((kk[1], kk[2]), "alljobs")):
                     tgt_ok = False
         for v in run.by_kind("push_signal"):
             if v["container"] == "queue":
@@ -1041,7 +1072,7 @@ def check_C10(A, R, tier):
         pl = [v for v in run.by_kind("push_local") if v["fn"] == ab.name and v["key"][0] is not None and is_role(v["key"], "alljobs")]
         ok1, why1 = False, "the index of an unfinished job is not collected"
         for v in pl:
-            ok1, why1 = forall_loop_taken(A, run, v, v["bb"])
+            ok1, why1 = forall_loop_taken(A, run, v)
             if ok1:
                 break
         ps = [v for v in run.by_kind("push_signal") if v["fn"] == ab.name and set(v["kinds"]) == {K["abort"]}]
@@ -1051,7 +1082,7 @@ def check_C10(A, R, tier):
             if not src_ok and v["container"] != "queue":
                 why2 = "the abort signals are not built from the collected indices"
                 continue
-            ok2, why2 = forall_loop_taken(A, run, v, v["bb"])
+            ok2, why2 = forall_loop_taken(A, run, v)
             if ok2:
                 break
         R.ob("R10.1", "abort_remaining | job in state %s | on every path its index is collected and turned into an abort signal" % A.sname(d),
@@ -1386,6 +1417,8 @@ def check_C02(A, R, tier):
                     R.ob("R2.2", tkey(A, t, f, to) + " | a finished upstream stays finished", to in C["Finished"], site=A.site(w))
     # R2.4: a failed upstream keeps its dependants from being offered: the failure reaches every direct downstream
     rule_failure_propagation(A, R, "R2.4", "R2.4")
+    # R2.5: an Ephemeral upstream is not skipped while a consuming downstream can still come to run
+    rule_skip_decision(A, R, "R2.5")
     # R2.3: get_job_output reports the field the success event stored
     gjo = A.evaluator_fn("get_job_output")
     r = A.joined_run(gjo)
@@ -1400,20 +1433,137 @@ def check_C02(A, R, tier):
 
 
 def write_is_gated(A, t, w, good_gates):
-    """is the state write dominated by gate(key)=true?  Uses the ghosts of a fact recorded after the write in the
-    same activation (emissions carry ghosts) or a gate call whose true-edge dominates the write."""
+    """is the state write dominated by gate(key)=true?  The gate call's true-edge must dominate the write (or the call
+    that leads to it) in the activation that made the gate call."""
     run = t["run"]
-    body = A.facts.body(w["fn"])
-    sym = w["key"][0]
     for v in run.by_kind("call"):
-        if v["fid"] != w["fid"] or v["callee"] not in good_gates:
+        if v["callee"] not in good_gates:
             continue
-        # the call's result is switched on in its target block: the write must be dominated by the true successor
-        tb = body.term(v["bb"])["t"]
+        com = run.common(v, w)
+        if com is None or com[0] != v["fid"]:
+            continue
+        fidc, fnc, bv, bw = com
+        body = A.facts.body(fnc)
+        tb = body.term(bv)["t"]
         tt = body.term(tb)
         if tt["k"] != "switch":
             continue
         true_succ = tt["otherwise"]
-        if body.dominates(true_succ, w["bb"]) and true_succ != tb:
+        if body.dominates(true_succ, bw) and true_succ != tb:
             return True
     return False
+
+
+# =============================================================================================
+# R2.5: the decision to skip a delayed Ephemeral looks at every direct downstream
+
+def downstream_pass_summary(A, body):
+    """for a helper f(.., key) -> bool | Result<bool> with a single loop over the Outgoing neighbours of its key:
+    the neighbour states for which one iteration neither returns false/Err nor leaves the loop"""
+    from interp import Interp, Config
+    from domain import av_set
+    I = Interp(A.facts, A.uni, A.layout, Config(label="DPS"))
+    fr, out, col = I.analyze(body)
+    ins = col["ins"]
+    nb = [v for k, v in I.rec.facts.items() if k[0] == "neighbors" and v["fid"] == fr.fid and v["dir"] == "Outgoing" and is_role(v["key"], "param")]
+    if len(nb) != 1:
+        return None
+    heads = [h for h in set(h for (_, h) in body.back_edges())
+             if body.term(h)["k"] == "call" and (M.callee_name(body.term(h)) or "").endswith("::next")]
+    if len(heads) != 1:
+        return None
+    h = heads[0]
+    loop = body.natural_loop(h)
+    sw = body.term(h)["t"]
+    somes = [s_ for s_ in body.succs(sw) if s_ in loop]
+    sym = ("b", fr.fid, h, "nbr")
+    passing = set()
+    for d in A.JS:
+        for s0 in somes:
+            if s0 not in ins:
+                continue
+            st = ins[s0].copy()
+            cell = st.heap.get(("job", sym))
+            if cell is None or cell[0] != "adt":
+                return None
+            st.heap[("job", sym)] = av_set(cell, (("f", A.L.state_field),), fin(A.L.jobstate, [d]), A.uni)
+            col2 = {}
+            I.run(fr, st, start=s0, stops={h}, collect=col2)
+            if h in col2["stops"]:
+                passing.add(d)
+    return frozenset(passing)
+
+
+def rule_skip_decision(A, R, rule):
+    C = A.classes()
+    K = kinds(A)
+    H = A.handler_runs()
+    T = A.transitions()
+    from rules_compare import skip_kind
+    sk = skip_kind(A)
+    cleanup_kinds = set(A.kind_of(s) for s in C["CleanupOffered"])
+    # delayed states: pending states of a cleanup kind that are entered only under the 'all upstreams finished' gate
+    gates = gate_functions(A)
+    good_gates = set(n for n, g in gates.items() if g["passing"] <= C["Finished"])
+    entered = {}
+    for t in T:
+        w = t["w"]
+        for to in w["to"]:
+            if to not in w["frm"]:
+                entered.setdefault(to, []).append((t, w))
+    delayed = set(s for s, lst in entered.items() if s not in C["Finished"] and s not in C["Ready"] and s not in C["Running"]
+                  and A.kind_of(s) in cleanup_kinds and all(write_is_gated(A, t, w, good_gates) for (t, w) in lst))
+    R.info["delayed_states"] = A.snames(delayed)
+    R.floor(rule, "delayed (gated, undecided) states", len(delayed), 1)
+
+    def can_run(d):
+        closure = {d}
+        changed = True
+        while changed:
+            changed = False
+            for t in T:
+                w = t["w"]
+                if w["frm"] & closure:
+                    new = set(w["to"]) - closure
+                    if new:
+                        closure |= new
+                        changed = True
+        return bool(closure & C["Running"])
+    n = 0
+    summaries = {}
+    for s in sorted(delayed):
+        run = H[(K["consider"], s)]
+        for v in run.by_kind("push_signal"):
+            if v["container"] == "queue" or sk not in v["kinds"] or not is_role(v["key"], "sigtarget"):
+                continue
+            n += 1
+            guards = []
+            for c in run.by_kind("call"):
+                cb = A.facts.body(c["callee"])
+                if cb is None or cb.vis == "Public":
+                    continue
+                if not (cb.locals[0]["s"] == "bool" or cb.locals[0]["s"].startswith("std::result::Result<bool")):
+                    continue
+                com = run.common(c, v)
+                if com is None or com[0] != c["fid"]:
+                    continue        # the test must be made in an activation that (transitively) contains the decision
+                cbody = A.facts.body(com[1])
+                if not cbody.dominates(com[2], com[3]):
+                    continue
+                if c["callee"] not in summaries:
+                    summaries[c["callee"]] = downstream_pass_summary(A, cb)
+                ps = summaries[c["callee"]]
+                if ps is not None:
+                    guards.append((c["callee"], ps))
+            ok = False
+            why = "no function that inspects every direct downstream dominates the decision to skip"
+            for (gn, ps) in guards:
+                bad = [d for d in ps if A.kind_of(d) not in cleanup_kinds and d in A.reach() and can_run(d)]
+                if not bad:
+                    ok = True
+                else:
+                    why = "%s lets the skip pass although a direct downstream in state %s can still come to run and would then need the Ephemeral's output" % (
+                        short(gn), A.snames(bad))
+            R.ob(rule, "%s | consider handler from %s | skipping the delayed Ephemeral requires that no consuming downstream can still run"
+                 % (short(v["fn"]), A.sname(s)), ok, detail=why, site=A.site(v))
+    R.floor(rule, "skip decisions for delayed Ephemerals", n, 1)
